@@ -29,13 +29,17 @@ type ResetProcessor struct {
 	target       interface{}
 	paths        []tree.Path
 	visitedNodes map[*yaml.Node][]string
+	// nodes currently being resolved (the recursion stack of resolveReset), with their multiplicity
+	active map[*yaml.Node]int
 }
 
 // UnmarshalYAML implement yaml.Unmarshaler
 func (p *ResetProcessor) UnmarshalYAML(value *yaml.Node) error {
 	p.visitedNodes = make(map[*yaml.Node][]string)
+	p.active = make(map[*yaml.Node]int)
 	resolved, err := p.resolveReset(value, tree.NewPath())
 	p.visitedNodes = nil
+	p.active = nil
 	if err != nil {
 		return err
 	}
@@ -53,6 +57,18 @@ func (p *ResetProcessor) resolveReset(node *yaml.Node, path tree.Path) (*yaml.No
 	if strings.Contains(pathStr, ".<<") {
 		path = tree.NewPath(strings.Replace(pathStr, ".<<", "", 1))
 	}
+
+	// A node that is nested inside its own expansion is an alias cycle, whatever the paths look like (a merge key
+	// that aliases an enclosing anchor is visited at the same path every time). The first re-entry is left to
+	// checkForCycle, which names the two paths; a second one is reported here.
+	if p.active == nil {
+		p.active = make(map[*yaml.Node]int)
+	}
+	if p.active[node] >= 2 {
+		return nil, fmt.Errorf("cycle detected: node at path %s is nested inside itself", path.String())
+	}
+	p.active[node]++
+	defer func() { p.active[node]-- }()
 
 	// If the node is an alias, We need to process the alias field in order to consider the !override and !reset tags
 	if node.Kind == yaml.AliasNode {
